@@ -1,5 +1,6 @@
 import DW.Lemmas.NoPanic
 import DW.Gen
+import DW.Stage1
 
 /-!
 # C16 — failures are clean diagnostics: no panic, and the item stays defined
